@@ -6,6 +6,8 @@ package sign
 // Output gates (C01). Receiver: the result (and the signature sent to the sender) is produced only for a
 // signature the textbook ECDSA equation accepts for the configured public key and this session's hash.
 //@ func (*round2R).Finalize
+// (C04, C05) the round handed back carries the SAME session helper (so its FinalRoundNumber(), SelfID(), ... are those of this round)
+//@   ensures[C04,C05] result1 == nil ==> ((typeis(result0, *round.Output) ==> result0.(*round.Output).Helper == old(r.Helper)) && (typeis(result0, *round.Abort) ==> result0.(*round.Abort).Helper == old(r.Helper)))
 // (C04, C05) the round handed to the handler is one the session announced: its number is within the final round
 // number, so the handler holds a queue for it and waits for every party before finalizing it
 //@   ensures[C04,C05] result1 == nil ==> result0.Number() <= old(r.Helper.info.FinalRoundNumber)
@@ -36,6 +38,8 @@ package sign
 //@   let body = msg.Content.(*message2R)
 //@   ensures[C01,C03] r.Sig.R == body.Sig.R && r.Sig.S == body.Sig.S
 //@ func (*round2S).Finalize
+// (C04, C05) the round handed back carries the SAME session helper (so its FinalRoundNumber(), SelfID(), ... are those of this round)
+//@   ensures[C04,C05] result1 == nil ==> ((typeis(result0, *round.Output) ==> result0.(*round.Output).Helper == old(r.Helper)) && (typeis(result0, *round.Abort) ==> result0.(*round.Abort).Helper == old(r.Helper)))
 // (C04, C05) the round handed to the handler is one the session announced: its number is within the final round
 // number, so the handler holds a queue for it and waits for every party before finalizing it
 //@   ensures[C04,C05] result1 == nil ==> result0.Number() <= old(r.Helper.info.FinalRoundNumber)
@@ -110,6 +114,8 @@ package sign
 // Finalize of both first rounds: they construct the multiplication instances (whose state invariant the second round
 // relies on) and, on the sender's side, consume the receiver's multiplication messages -- of any shape -- without a panic.
 //@ func (*round1R).Finalize
+// (C04, C05) the round handed back carries the SAME session helper (so its FinalRoundNumber(), SelfID(), ... are those of this round)
+//@   ensures[C04,C05] result1 == nil ==> ((typeis(result0, *round2R) ==> result0.(*round2R).Helper == old(r.Helper)) && (typeis(result0, *round.Output) ==> result0.(*round.Output).Helper == old(r.Helper)) && (typeis(result0, *round.Abort) ==> result0.(*round.Abort).Helper == old(r.Helper)))
 // (C04, C05) the round handed to the handler is one the session announced: its number is within the final round
 // number, so the handler holds a queue for it and waits for every party before finalizing it
 //@   ensures[C04,C05] result1 == nil ==> result0.Number() <= old(r.Helper.info.FinalRoundNumber)
@@ -122,6 +128,8 @@ package sign
 //@   ensures typeis(result0, *round.Abort) ==> result0.(*round.Abort).Err != nil
 //@   ensures typeis(result0, *round.Output) ==> result0.(*round.Output).Result != nil
 //@ func (*round1S).Finalize
+// (C04, C05) the round handed back carries the SAME session helper (so its FinalRoundNumber(), SelfID(), ... are those of this round)
+//@   ensures[C04,C05] result1 == nil ==> ((typeis(result0, *round2S) ==> result0.(*round2S).Helper == old(r.Helper)) && (typeis(result0, *round.Output) ==> result0.(*round.Output).Helper == old(r.Helper)) && (typeis(result0, *round.Abort) ==> result0.(*round.Abort).Helper == old(r.Helper)))
 // (C04, C05) the round handed to the handler is one the session announced: its number is within the final round
 // number, so the handler holds a queue for it and waits for every party before finalizing it
 //@   ensures[C04,C05] result1 == nil ==> result0.Number() <= old(r.Helper.info.FinalRoundNumber)
